@@ -1042,7 +1042,12 @@ class Evaluator:
         if c in ("std::mem::needs_drop", "core::mem::needs_drop"):
             return ("needs_drop", substs[0])
         if c == "align_offset":
-            return ("alignUp", self._layout(substs[0], 1), args[0])
+            al = self._layout(substs[0], 1)
+            if tag(args[0]) == "alignUp" and args[0][1] == al:
+                return args[0]      # aligning an aligned offset is the identity
+            if is_const(al) and al.c == 1:
+                return args[0]
+            return ("alignUp", al, args[0])
         if c == "decode_segment_node":
             w = args[0]
             if tag(w) == "pack":
